@@ -307,4 +307,147 @@ Proof.
     split; [intros w Hw; rewrite Hs1 in Hw; destruct Hw as [<-|[]]; left; reflexivity|].
     right. split; [exact Hpol|]. exists h, x. auto.
 Qed.
+
+(* ---------- C03: a converged Service is a fixpoint of the handler ---------- *)
+(* recorded addresses admissible, no PreferDualStack gain possible (two addresses,
+   or not PreferDualStack on dual-stack cluster IPs), status already in the
+   normalised order, annotation naming the owning pool: convergeBalancer returns
+   exactly the same status and annotation - nothing to write *)
+Theorem converged_fixpoint a s o k v ok a' :
+  o_lb o = true -> by_name (s_pools a) <> [] -> o_cluster_ok o = true ->
+  (is_require (r_pol (o_req o)) && negb (is_dual (r_fam (o_req o)))) = false ->
+  o_status o <> [] ->
+  family_changed (alloc_fam (o_status o)) (r_fam (o_req o)) (r_pol (o_req o)) = false ->
+  assign a s (o_req o) (o_status o) = (a', ROk (o_status o)) ->
+  (forall p, o_want_pool o = Some p -> pool_of a' s = Some p) ->
+  (o_want o = WNone \/ exists d, o_want o = WIps d /\ equal_ips rank (o_status o) d = true) ->
+  additional_applies (o_req o) (o_status o) = false ->
+  sort2 rank (o_status o) = o_status o ->
+  o_annot o = pool_of a' s ->
+  converge rank a s o k = CR v ok ->
+  ok = true /\ cv_status v = o_status o /\ cv_annot v = o_annot o /\ cv_mem v = a'.
+Proof.
+  intros Hlb Hpools Hcl Hreq Hst Hfam Has Hwp Hwant Hnogain Hsorted Hannot.
+  unfold converge. rewrite Hlb, Hcl, Hreq. cbn [negb].
+  destruct (by_name (s_pools a)) as [|p0 ps0] eqn:Ebn; [congruence|].
+  set (c0 := {| cv_mem := a; cv_status := o_status o; cv_annot := o_annot o |}).
+  assert (EA : stageA c0 s o = (c0, o_status o)).
+  { unfold stageA. destruct (o_status o) as [|x l] eqn:Es; [congruence|]. rewrite Hfam. reflexivity. }
+  rewrite EA.
+  set (c2 := {| cv_mem := a'; cv_status := o_status o; cv_annot := o_annot o |}).
+  assert (EB : stageB rank c0 (o_status o) s o = inl (c2, o_status o)).
+  { unfold stageB. destruct (o_status o) as [|x l] eqn:Es; [congruence|]. cbn [cv_mem c0]. rewrite Has.
+    cbv beta iota zeta.
+    assert (Hfin : match o_want o with
+              | WNone => inl (c2, x :: l)
+              | WIps d => if equal_ips rank (x :: l) d then inl (c2, sort2 rank (x :: l)) else inl (clear c2 s, [])
+              | WInvalid => inr c2
+              end = inl (c2, x :: l)).
+    { destruct Hwant as [->|[d [-> Heq]]]; [reflexivity|]. rewrite Heq, Hsorted. reflexivity. }
+    destruct (o_want_pool o) as [p|] eqn:Ep.
+    - cbn [cv_mem]. rewrite (Hwp p eq_refl). cbn [opt_pool_eqb]. rewrite N.eqb_refl. exact Hfin.
+    - exact Hfin. }
+  rewrite EB.
+  assert (EC : stageC c2 (o_status o) s (o_req o) k = Some (c2, o_status o)).
+  { unfold stageC. destruct (o_status o) as [|h [|y l]]; try reflexivity. rewrite Hnogain. reflexivity. }
+  rewrite EC.
+  assert (ED : stageD c2 (o_status o) s o k = Some (inl (c2, o_status o))).
+  { unfold stageD. destruct (o_status o); [congruence|reflexivity]. }
+  rewrite ED. unfold stageE. destruct (o_status o) as [|y l] eqn:Es; [congruence|].
+  destruct (assigned_pool_exists _ _ _ _ _ _ Has) as (pn & q & Hpo & Hfp).
+  cbn [cv_mem c2]. rewrite Hpo, Hfp. intros [= <- <-]. cbn. repeat split; congruence.
+Qed.
+
+(* so SetBalancer on such a Service attempts no status write and leaves the
+   recorded allocation as the re-assignment made it *)
+Theorem converged_no_write c s o k oc a' :
+  c_have_pools c = true ->
+  o_lb o = true -> by_name (s_pools (c_mem c)) <> [] -> o_cluster_ok o = true ->
+  (is_require (r_pol (o_req o)) && negb (is_dual (r_fam (o_req o)))) = false ->
+  o_status o <> [] ->
+  family_changed (alloc_fam (o_status o)) (r_fam (o_req o)) (r_pol (o_req o)) = false ->
+  assign (c_mem c) s (o_req o) (o_status o) = (a', ROk (o_status o)) ->
+  (forall p, o_want_pool o = Some p -> pool_of a' s = Some p) ->
+  (o_want o = WNone \/ exists d, o_want o = WIps d /\ equal_ips rank (o_status o) d = true) ->
+  additional_applies (o_req o) (o_status o) = false ->
+  sort2 rank (o_status o) = o_status o ->
+  o_annot o = pool_of a' s ->
+  set_balancer rank c s (Some o) k = Some oc ->
+  oc_write oc = None /\ c_mem (oc_state oc) = a'.
+Proof.
+  intros Hp Hlb Hpools Hcl Hreq Hst Hfam Has Hwp Hwant Hng Hs Han.
+  unfold set_balancer. rewrite Hp. cbn [negb].
+  destruct (converge rank (c_mem c) s o k) as [v ok|] eqn:EC; [|discriminate].
+  destruct (converged_fixpoint _ _ _ _ _ _ _ Hlb Hpools Hcl Hreq Hst Hfam Has Hwp Hwant Hng Hs Han EC) as (_ & Hst' & Han' & Hm).
+  rewrite Hst', Han'.
+  assert (E1 : ips_eqb (o_status o) (o_status o) = true) by (apply ips_eqb_eq; reflexivity).
+  assert (E2 : opt_pool_eqb (o_annot o) (o_annot o) = true) by (destruct (o_annot o); cbn; [apply N.eqb_refl|reflexivity]).
+  rewrite E1, E2. cbn [negb orb]. intros [= <-]. cbn. auto.
+Qed.
+
+(* ---------- C02: explicitly requested addresses ---------- *)
+Lemma equal_ips_same a b : equal_ips rank a b = true -> same_ips a b.
+Proof.
+  unfold equal_ips. intros H. apply ips_eqb_eq in H. intros x.
+  rewrite <- (sort2_same rank a x), <- (sort2_same rank b x), H. tauto.
+Qed.
+
+(* a LoadBalancer Service that requests specific addresses and converges holds
+   exactly those (as a set); the only other outcome is the PreferDualStack gain on
+   top of a single requested address (finding F22) *)
+Theorem explicit_ips_exact a s o k v d :
+  converge rank a s o k = CR v true -> o_lb o = true -> o_want o = WIps d ->
+  same_ips (cv_status v) d \/
+  (exists have x, same_ips d [have] /\ cv_status v = [have; x] /\ additional_applies (o_req o) [have] = true).
+Proof.
+  unfold converge. intros H Hlb Hw. rewrite Hlb in H. cbn [negb] in H.
+  destruct (match by_name (s_pools a) with [] => true | _ => false end); [discriminate|].
+  destruct (negb (o_cluster_ok o)); [discriminate|].
+  destruct (is_require _ && _); [discriminate|].
+  destruct (stageA _ s o) as [c1 lb1].
+  (* stage B: what survives is (as a set) the requested list, or nothing *)
+  assert (HB : match stageB rank c1 lb1 s o with
+               | inl (_, lb3) => lb3 = [] \/ same_ips lb3 d
+               | inr _ => True
+               end).
+  { unfold stageB. destruct lb1 as [|x l]; [left; reflexivity|].
+    destruct (assign (cv_mem c1) s (o_req o) (x :: l)) as [a1 [i|e|]];
+      destruct (o_want_pool o) as [p|];
+      try match goal with |- context [if ?b then _ else _] => destruct b end;
+      rewrite Hw;
+      match goal with |- context [equal_ips rank ?lb d] =>
+        destruct (equal_ips rank lb d) eqn:Eq;
+        [right; intros w; rewrite (sort2_same rank lb w); apply (equal_ips_same _ _ Eq)|left; reflexivity]
+      end. }
+  destruct (stageB rank c1 lb1 s o) as [[c3 lb3]|c3]; [|discriminate].
+  (* stage C: unchanged, or one more address on top of a single one *)
+  destruct (stageC c3 lb3 s (o_req o) k) as [[c4 lb4]|] eqn:EC; [|discriminate].
+  assert (HC : lb4 = lb3 \/ exists have x, lb3 = [have] /\ lb4 = [have; x] /\ additional_applies (o_req o) [have] = true).
+  { unfold stageC in EC. destruct lb3 as [|have [|y l]]; try (injection EC as _ <-; left; reflexivity).
+    destruct (additional_applies (o_req o) [have]) eqn:Eap; [|injection EC as _ <-; left; reflexivity].
+    destruct (pool_of (cv_mem c3) s) as [pn|]; [|injection EC as _ <-; left; reflexivity].
+    destruct (alloc_op _ _) as [[a2 [[|x [|y l]]|e|]]|]; try discriminate; injection EC as _ <-; try (left; reflexivity).
+    right. exists have, x. auto. }
+  (* stage D: allocation only when nothing is left; then exactly the requested list *)
+  destruct (stageD c4 lb4 s o k) as [[[c5 lb5]|c5]|] eqn:ED; try discriminate.
+  assert (HD : lb5 = lb4 /\ lb4 <> [] \/ lb4 = [] /\ lb5 = d).
+  { unfold stageD in ED. destruct lb4 as [|y4 l4].
+    - right. split; [reflexivity|]. rewrite Hw in ED.
+      destruct (negb _); [discriminate|].
+      destruct (assign (cv_mem c4) s (o_req o) d) as [a2 [i|e|]]; try discriminate.
+      destruct (o_want_pool o) as [p|]; [|injection ED as _ <-; reflexivity].
+      destruct (opt_pool_eqb _ _); [injection ED as _ <-; reflexivity|discriminate].
+    - left. injection ED as _ <-. split; [reflexivity|discriminate]. }
+  (* stage E records lb5 *)
+  assert (HE : cv_status v = lb5).
+  { unfold stageE in H. destruct lb5 as [|y5 l5]; [discriminate|].
+    destruct (pool_of (cv_mem c5) s); [|discriminate]. destruct (find_pool _ _); [|discriminate].
+    injection H as <-. reflexivity. }
+  rewrite HE.
+  destruct HD as [[-> Hne]|[-> ->]]; [|left; apply same_ips_refl].
+  destruct HC as [->|(have & x & -> & -> & Hap)].
+  - destruct HB as [->|HB]; [congruence|left; exact HB].
+  - destruct HB as [HB|HB]; [discriminate|]. right. exists have, x. split; [|auto].
+    intros w. rewrite <- (HB w). tauto.
+Qed.
 End Thm.
